@@ -204,7 +204,7 @@ pub fn run(run: &mut Run) {
                     break;
                 }
                 let c = &cfgs[i];
-                let cfg = NetCfg { max_states: cap_for(c.nodes), max_path: 400, budget: Duration::from_secs(if quick { 300 } else { 3000 }), workers: 1 };
+                let cfg = NetCfg { max_states: cap_for(c.nodes), max_path: 400, budget: Duration::from_secs(if quick { 300 } else { 3000 }), workers: 1, by_deviations: false };
                 let mk = || build(c);
                 let none = |_: &NetWorld, _: &[T]| -> Vec<(String, String)> { vec![] };
                 let good = std::sync::atomic::AtomicU64::new(0);
@@ -214,7 +214,26 @@ pub fn run(run: &mut Run) {
                     if r.is_empty() { &good } else { &bad }.fetch_add(1, std::sync::atomic::Ordering::Relaxed);
                     r
                 };
-                let r = explore_net(&mk, &none, &onq, &cfg).map(|(st, f)| (st, f, good.load(std::sync::atomic::Ordering::Relaxed), bad.load(std::sync::atomic::Ordering::Relaxed)));
+                // two passes over the same configuration: iterative deviation bounding (the default
+                // schedule, then every schedule one departure away from it, then two, ...) reaches
+                // the quiet states that need few reorderings; depth first then goes deep near the end
+                let cfg_dev = NetCfg { max_states: cap_for(c.nodes), max_path: 400, budget: Duration::from_secs(if quick { 300 } else { 3000 }), workers: 1, by_deviations: true };
+                let r = explore_net(&mk, &none, &onq, &cfg_dev).and_then(|(st1, mut f1)| {
+                    explore_net(&mk, &none, &onq, &cfg).map(|(mut st, f)| {
+                        f1.extend(f);
+                        st.deviations_completed = st1.deviations_completed;
+                        st.states += st1.states;
+                        st.transitions += st1.transitions;
+                        st.replays += st1.replays;
+                        st.quiescent_states += st1.quiescent_states;
+                        st.max_path = st.max_path.max(st1.max_path);
+                        if st.cap.is_none() {
+                            // the depth-first pass covered everything
+                            st.cap = None;
+                        }
+                        (st, f1, good.load(std::sync::atomic::Ordering::Relaxed), bad.load(std::sync::atomic::Ordering::Relaxed))
+                    })
+                });
                 results.lock().unwrap().push((i, r));
             });
         }
@@ -233,7 +252,7 @@ pub fn run(run: &mut Run) {
                 if st.cap.is_some() {
                     capped += 1;
                 }
-                per.push(json!({"config": c.name(), "states": st.states, "quiescent_states": st.quiescent_states, "quiet_states_ok": g, "quiet_states_violating": b, "max_path": st.max_path, "cap": st.cap}));
+                per.push(json!({"config": c.name(), "states": st.states, "quiescent_states": st.quiescent_states, "quiet_states_ok": g, "quiet_states_violating": b, "max_path": st.max_path, "cap": st.cap, "deviations_completed": st.deviations_completed}));
                 let trig = format!("{:?}", c.trigger);
                 let trig = trig.split('(').next().unwrap_or("").to_string();
                 let shape_pre = format!("{} nodes, {}", c.nodes, trig);
@@ -261,5 +280,5 @@ pub fn run(run: &mut Run) {
     run.sample(json!(cfgs[0].name()));
     run.assume("timing: the 1 s start-up sleep and the election timeouts fire only when no message or join connection can make progress (messages are faster than the election timeout); the 100 ms grace sleep may end at any time");
     run.assume("a poll-loop iteration is explored only when the waiter's node changed since it last looked (an iteration on unchanged state observes nothing new)");
-    run.assume("each configuration is explored depth-first by one thread up to a state cap, so the covered part is identical on every run; configurations that hit the cap are reported as capped");
+    run.assume("each configuration is explored twice by one thread, by ascending number of deviations from the default schedule and depth-first, each up to a state cap, so the covered part is identical on every run; configurations that hit the cap are reported as capped");
 }
